@@ -80,7 +80,7 @@ def same(a, b):
 # ---------------------------------------------------------------------------------------------------------------
 # data cells
 # ---------------------------------------------------------------------------------------------------------------
-NULL_TEXTS = {'-999.25': ('-999.25', '-999.2500'), '-9999': ('-9999', '-9999.00')}
+NULL_TEXTS = {'-999.25': ('-999.25', '-999.2500'), '-9999': ('-9999', '-9999.00'), '0': ('0', '0.00')}
 CELL_NULL = '<NULL>'         # placeholder in a frame: the file's NULL written as a number
 
 
@@ -313,6 +313,10 @@ def expected(content, layout=None):
         exp[('A', c, 'units')] = text_value(u)
         for f, fr in enumerate(content['frames']):
             exp[('A', c, f)] = cell_expected(fr[c], content['null'])
+            # a cell that is a LAS number other than the file's NULL is data: the array has to hold it (not mask it)
+            cell = fr[c]
+            if cell != CELL_NULL and _RE_FLOAT.match(cell) and float(cell) != float(content['null']):
+                exp[('A', c, f, 'masked')] = {'False'}
     return exp
 
 
